@@ -376,3 +376,136 @@ def fresh_copy(sub):
     from netqasm.lang.subroutine import Subroutine
     return Subroutine(instructions=[_copy.deepcopy(i) for i in sub.instructions], app_id=sub.app_id,
                       netqasm_version=tuple(sub.netqasm_version))
+
+
+# ---- every integer-taking entry point of the SDK surface ---------------------------------------------
+
+def sdk_int_probes():
+    """[(name, width tag, body(conn, qubit, v))]: one probe per integer parameter of the SDK surface that
+    ends up in the subroutine.  width: 'i32' (register words, addresses, branch operands), 'u8'."""
+    from netqasm.sdk.qubit import Qubit
+
+    def nothing(*a):
+        pass
+
+    def epr(conn):
+        return conn._test_epr_socket
+
+    P = []
+    P.append(("Builder.new_register(init_value=v)", "i32", lambda c, q, v: c.builder.new_register(v)))
+    P.append(("Qubit(conn, virtual_address=v)", "i32", lambda c, q, v: Qubit(c, virtual_address=v)))
+    P.append(("new_array(init_values=[v])", "i32", lambda c, q, v: c.new_array(init_values=[v])))
+    P.append(("new_array(init_values=[1, None, v])", "i32", lambda c, q, v: c.new_array(init_values=[1, None, v])))
+    P.append(("new_array(length=v)", "i32", lambda c, q, v: c.new_array(length=v)))
+
+    def loop_stop(c, q, v):
+        with c.loop(v):
+            q.H()
+    P.append(("loop(stop=v)", "i32", loop_stop))
+
+    def loop_start(c, q, v):
+        with c.loop(v + 3 if v < 2 ** 40 else v + 3, start=v):
+            q.H()
+    P.append(("loop(stop=v+3, start=v)", "i32", loop_start))
+
+    def loop_step(c, q, v):
+        with c.loop(10, step=v):
+            q.H()
+    P.append(("loop(10, step=v)", "i32", loop_step))
+    P.append(("loop_body(body, stop=v)", "i32", lambda c, q, v: c.loop_body(lambda conn, *a: q.H(), stop=v)))
+
+    def loop_until(c, q, v):
+        with c.loop_until(v) as loop:
+            m = q.measure(inplace=True)
+            loop.set_exit_condition(__import__("netqasm.sdk.constraint", fromlist=["x"]).ValueAtMostConstraint(m, 0))
+    P.append(("loop_until(max_iterations=v)", "i32", loop_until))
+
+    def try_until(c, q, v):
+        with c.try_until_success(max_tries=v):
+            q.H()
+    P.append(("try_until_success(max_tries=v)", "i32", try_until))
+    for nm in ("if_eq", "if_ne", "if_lt", "if_ge"):
+        P.append((f"conn.{nm}(reg, v, body)", "i32",
+                  lambda c, q, v, nm=nm: getattr(c, nm)(c.builder.new_register(1), v, lambda conn: q.H())))
+        P.append((f"conn.{nm}(v, reg, body)", "i32",
+                  lambda c, q, v, nm=nm: getattr(c, nm)(v, c.builder.new_register(1), lambda conn: q.H())))
+    for nm in ("if_ez", "if_nz"):
+        P.append((f"conn.{nm}(v, body)", "i32", lambda c, q, v, nm=nm: getattr(c, nm)(v, lambda conn: q.H())))
+
+    def fut_if(c, q, v, nm):
+        f = c.new_array(init_values=[1]).get_future_index(0)
+        with getattr(f, nm)(v):
+            q.H()
+    for nm in ("if_eq", "if_ne", "if_lt", "if_ge"):
+        P.append((f"Future.{nm}(v)", "i32", lambda c, q, v, nm=nm: fut_if(c, q, v, nm)))
+    P.append(("Future.add(v)", "i32", lambda c, q, v: c.new_array(init_values=[1]).get_future_index(0).add(v)))
+    P.append(("Future.add(1, mod=v)", "i32",
+              lambda c, q, v: c.new_array(init_values=[1]).get_future_index(0).add(1, mod=v)))
+    P.append(("RegFuture.add(v)", "i32", lambda c, q, v: c.builder.new_register(1).add(v)))
+    P.append(("Array.get_future_index(v) as measure target", "i32",
+              lambda c, q, v: q.measure(future=c.new_array(length=3).get_future_index(v))))
+    P.append(("Array.get_future_slice(slice(v, v+2)) foreach", "i32",
+              lambda c, q, v: c.new_array(length=3).get_future_slice(slice(v, v + 2))))
+    P.append(("Qubit.measure(future=array[v])", "i32",
+              lambda c, q, v: q.measure(future=c.new_array(length=3)[v])))
+    for meth in ("create_keep", "recv_keep"):
+        P.append((f"EPRSocket.{meth}(max_time=v)" if meth == "create_keep" else f"EPRSocket.{meth}(min_fidelity_all_at_end=v)",
+                  "i32", (lambda c, q, v: epr(c).create_keep(max_time=v)) if meth == "create_keep" else
+                  (lambda c, q, v: epr(c).recv_keep(min_fidelity_all_at_end=v, max_tries=3))))
+    P.append(("EPRSocket.create_keep(min_fidelity_all_at_end=v)", "i32",
+              lambda c, q, v: epr(c).create_keep(min_fidelity_all_at_end=v, max_tries=3)))
+    P.append(("EPRSocket.create_keep(max_tries=v)", "i32",
+              lambda c, q, v: epr(c).create_keep(min_fidelity_all_at_end=80, max_tries=v)))
+    P.append(("EPRSocket.create_measure(max_time=v)", "i32", lambda c, q, v: epr(c).create_measure(max_time=v)))
+    P.append(("EPRSocket(epr_socket_id=v)", "i32", None))       # handled by the runner (constructor argument)
+    P.append(("EPRSocket(remote_epr_socket_id=v)", "i32", None))
+    return P
+
+
+def all_ints_of(subs):
+    """every integer (immediate, address, register index) in the committed subroutines"""
+    from netqasm.lang.parsing.binary import deserialize
+    out = set()
+    for raw in subs:
+        try:
+            sub = deserialize(raw)
+        except Exception:
+            continue
+        for i in sub.instructions:
+            j = H.instr_to_json(i)
+            for o in j["o"]:
+                v = list(o.values())[0]
+                for x in (v if isinstance(v, list) else [v]):
+                    out.add(x)
+    return out
+
+
+def run_sdk_int_probe(name, body, v):
+    """(committed subroutine byte strings or None, exception class or None) with a fresh connection"""
+    S = _sdk_imports()
+    from netqasm.sdk.epr_socket import EPRSocket
+    S["SharedMemoryManager"].reset_memories()
+    S["BaseNetQASMConnection"]._app_ids.clear()
+    S["DebugConnection"].node_ids = {"Alice": 0, "Bob": 1}
+    try:
+        if name.startswith("EPRSocket(epr_socket_id"):
+            sock = EPRSocket("Bob", epr_socket_id=v)
+        elif name.startswith("EPRSocket(remote_epr_socket_id"):
+            sock = EPRSocket("Bob", remote_epr_socket_id=v)
+        else:
+            sock = EPRSocket("Bob")
+        with S["DebugConnection"]("Alice", epr_sockets=[sock]) as conn:
+            conn._test_epr_socket = sock
+            q = S["Qubit"](conn)
+            if body is not None:
+                body(conn, q, v)
+            else:
+                sock.create_keep()
+        subs = []
+        for raw in conn.storage:
+            m = S["deserialize_host_msg"](raw)
+            if isinstance(m, S["SubroutineMessage"]):
+                subs.append(bytes(m.subroutine))
+        return subs, None, list(conn.storage)
+    except Exception as e:
+        return None, type(e).__name__, None
